@@ -122,3 +122,140 @@ Section SimB.
       + destruct Hpat as (m & Hm & Hpm). rewrite Hpm in Ht. destruct Ht as [<-|[]]. lia.
   Qed.
 End SimB.
+
+(* ---- one rule --------------------------------------------------------------------------------------------------------- *)
+Record rchain_ok (k : N) (rc : chain) : Prop := {
+  ro_wf : Forall pat_wf (ch_cons rc);
+  ro_name : forall t, In (NPat t) (ch_name rc) -> (t < 0)%Z -> (- t < Z.of_N k)%Z;
+  ro_cons : forall c t, In c (ch_cons rc) -> In t (nc_pat c) -> (t < 0)%Z -> (- t < Z.of_N k)%Z;
+  ro_norefs : forall x, ~ In (NRef x) (ch_name rc)
+}.
+
+Lemma rchain_ok_mono k k' rc : rchain_ok k rc -> k <= k' -> rchain_ok k' rc.
+Proof.
+  intros [A B C D] Hle. constructor; auto.
+  - intros t Ht Hn. specialize (B t Ht Hn). lia.
+  - intros c t Hc Ht Hn. specialize (C c t Hc Ht Hn). lia.
+Qed.
+
+Section Rule.
+  Variable S : lvsfile.
+  Variable named : list (ident * N).
+  Variable kfinal : N.
+  Variable K' : nat.
+  Hypothesis Hinj : forall p q t, al_get ident_eqb named p = Some t -> al_get ident_eqb named q = Some t -> p = q.
+  Hypothesis Hnt : forall p n, al_get ident_eqb named p = Some n -> is_temp_pat p = false /\ 1 <= n.
+  Hypothesis Hkf : 1 <= kfinal.
+
+  Variable r : rule.
+  Variable nr : nrule.
+  Variable tp : temp_pats.
+  Variable k0 k1 : N.
+  Hypothesis Hk1 : k1 <= kfinal.
+  Hypothesis Htp : tp_inv k0 k1 (r_name r) (nr_name nr) tp.
+  Hypothesis Hnum : Forall2 (comp_num named) (r_name r) (nr_name nr).
+
+  Definition own_part (cs : list tagcons) (c : comp) : flat :=
+    match c with
+    | CLit v => {| f_comps := [FLit v]; f_ncons := [] |}
+    | CPat p => if is_temp_pat p then {| f_comps := [FTemp (cons_on p cs)]; f_ncons := [] |} else {| f_comps := [FNamed p]; f_ncons := [] |}
+    | CRef _ => {| f_comps := []; f_ncons := [] |}
+    end.
+
+  Record chain_inv (done : list comp) (k : N) (cs : list tagcons) (cons0 : list ncons) (parts : list flat) (ch : chain) : Prop := {
+    ci_parts : Forall2 (fun c part => In part (alts K' S cs c)) done parts;
+    ci_cons : exists extra, ch_cons ch = cons0 ++ extra /\ Forall pat_wf extra /\
+                            forall c t, In c extra -> In t (nc_pat c) -> (t < 0)%Z -> (Z.of_N kfinal <= - t)%Z /\ (- t < Z.of_N k)%Z;
+    ci_name : forall t, In (NPat t) (ch_name ch) -> (t < 0)%Z -> (- t < Z.of_N k)%Z;
+    ci_norefs : forall x, ~ In (NRef x) (ch_name ch);
+    ci_rep : represents named ch (mkflat cs parts)
+  }.
+
+  Lemma chain_inv_mono done k k' cs cons0 parts ch : chain_inv done k cs cons0 parts ch -> k <= k' -> chain_inv done k' cs cons0 parts ch.
+  Proof.
+    intros [A (extra & B1 & B2 & B3) C D E] Hle. constructor; auto.
+    - exists extra. split; [exact B1|]. split; [exact B2|]. intros c t Hc Ht Hn. destruct (B3 c t Hc Ht Hn). lia.
+    - intros t Ht Hn. specialize (C t Ht Hn). lia.
+  Qed.
+
+  Definition app_comp (ch : chain) (c : ncomp) : chain :=
+    {| ch_id := ch_id ch; ch_name := ch_name ch ++ [c]; ch_cons := ch_cons ch; ch_sign := ch_sign ch |}.
+
+  (* an own component (literal or pattern) is appended *)
+  Lemma step_own done k cs cons0 parts ch c nc :
+    Forall2 (fun tc nc => resolve_cons named tp tc = Ok nc) cs cons0 -> kfinal <= k ->
+    chain_inv done k cs cons0 parts ch ->
+    nth_error (r_name r) (length done) = Some c -> nth_error (nr_name nr) (length done) = Some nc -> comp_num named c nc ->
+    (forall x, c <> CRef x) ->
+    chain_inv (done ++ [c]) k cs cons0 (parts ++ [own_part cs c]) (app_comp ch nc).
+  Proof.
+    intros Hres Hk [A (extra & B1 & B2 & B3) C D E] Hc Hnc Hcn Hnoref.
+    destruct (own_cons_wf named kfinal Hinj Hnt Hkf tp k0 k1 _ _ cs cons0 Hres Htp Hk1 Hnum) as [Hwf0 Htag0].
+    constructor.
+    - apply Forall2_app; [exact A|]. constructor; [|constructor]. destruct c as [v|p|x]; cbn; [left; reflexivity | | exfalso; eapply Hnoref; reflexivity].
+      destruct (is_temp_pat p); left; reflexivity.
+    - exists extra. auto.
+    - cbn [ch_name app_comp]. intros t Ht Hn. apply in_app_or in Ht. destruct Ht as [Ht|[Ht|[]]]; [apply C; auto|]. subst nc.
+      destruct (ti_fresh _ _ _ _ _ Htp _ _ Hnc Hn). lia.
+    - cbn [ch_name app_comp]. intros x Hx. apply in_app_or in Hx. destruct Hx as [Hx|[Hx|[]]]; [eapply D; eauto|]. subst nc.
+      destruct c; cbn in Hcn; try contradiction. subst. eapply Hnoref. reflexivity.
+    - rewrite mkflat_snoc. destruct E as [R1 R2]. constructor; cbn [ch_name ch_cons app_comp fapp f_comps f_ncons].
+      + apply Forall2_app.
+        * clear - R1. assert (G : forall l l', Forall2 (comp_rep named ch) l l' -> Forall2 (comp_rep named (app_comp ch nc)) l l').
+          { intros l l' F. induction F; constructor; auto. }
+          apply G, R1.
+        * assert (Hone : Forall2 (comp_rep named (app_comp ch nc)) (f_comps (own_part cs c)) [nc]).
+          { destruct c as [v|p|x]; destruct nc as [w|t|x']; cbn in Hcn; try contradiction.
+            - subst. cbn. constructor; [reflexivity | constructor].
+            - cbn [own_part]. destruct (is_temp_pat p) eqn:Ept.
+              + cbn. constructor; [|constructor]. cbn. split; [exact Hcn|].
+                change (Forall2 (optlist_rel named) (cons_on p cs) (opts_for (ch_cons ch) t)). rewrite B1, opts_for_app.
+                rewrite (not_mentions_opts extra t), app_nil_r.
+                * eapply (own_temp_rel named kfinal Hinj Hnt Hkf); eauto.
+                * intros (c0 & Hc0 & Ht0). destruct (B3 c0 t Hc0 Ht0 Hcn) as [H1 _].
+                  destruct (ti_fresh _ _ _ _ _ Htp _ _ Hnc Hcn). lia.
+              + cbn. constructor; [|constructor]. cbn. exact Hcn.
+            - exfalso. eapply Hnoref. reflexivity. }
+          exact Hone.
+      + intros p t Hp. assert (f_ncons (own_part cs c) = []) by (destruct c as [v|q|x]; cbn; [reflexivity | destruct (is_temp_pat q); reflexivity | reflexivity]).
+        rewrite H, app_nil_r. apply (R2 p t Hp).
+  Qed.
+
+  Definition app_ref (ch : chain) (rn : list ncomp) (rcs : list ncons) : chain :=
+    {| ch_id := ch_id ch; ch_name := ch_name ch ++ rn; ch_cons := ch_cons ch ++ rcs; ch_sign := ch_sign ch |}.
+
+  (* a renamed copy of a chain of a referenced rule is appended *)
+  Lemma step_ref done k kc cs cons0 parts ch x rcx fx kc' rn rcs :
+    Forall2 (fun tc nc => resolve_cons named tp tc = Ok nc) cs cons0 ->
+    kfinal <= k -> k <= kc -> chain_inv done k cs cons0 parts ch ->
+    In fx (alts K' S cs (CRef x)) -> represents named rcx fx -> rchain_ok k rcx ->
+    rename_temp_tags kc rcx = (kc', (rn, rcs)) ->
+    chain_inv (done ++ [CRef x]) kc' cs cons0 (parts ++ [fx]) (app_ref ch rn rcs) /\ kc <= kc'.
+  Proof.
+    intros Hres Hk Hkc [A (extra & B1 & B2 & B3) C D E] Hfx Hrep [W1 W2 W3 W4] Hrn.
+    destruct (own_cons_wf named kfinal Hinj Hnt Hkf tp k0 k1 _ _ cs cons0 Hres Htp Hk1 Hnum) as [Hwf0 Htag0].
+    destruct (rename_temp_tags_spec _ _ _ _ _ Hrn) as (mp & Hok & Hle & -> & -> & Hdn & Hdc).
+    assert (Hk1' : 1 <= kc) by lia.
+    pose proof (rename_rep named kc kc' mp _ _ fx Hok Hk1' W1 Hdn Hdc (proj1 (represents_mk named rcx fx) Hrep)) as Hrep'.
+    destruct (rename_range kc kc' mp (ch_name rcx) (ch_cons rcx) Hok Hk1' W1 Hdn Hdc) as (Rn & Rc & Rw).
+    split; [|exact Hle]. constructor.
+    - apply Forall2_app; [exact A|]. constructor; [exact Hfx | constructor].
+    - exists (extra ++ map (rn_cons mp) (ch_cons rcx)). cbn [ch_cons app_ref]. split; [rewrite B1, app_assoc; reflexivity|]. split; [apply Forall_app; auto|].
+      intros c t Hc Ht Hn. apply in_app_or in Hc. destruct Hc as [Hc|Hc].
+      + destruct (B3 c t Hc Ht Hn). lia.
+      + destruct (Rc c t Hc Ht Hn). lia.
+    - cbn [ch_name app_ref]. intros t Ht Hn. apply in_app_or in Ht. destruct Ht as [Ht|Ht].
+      + specialize (C t Ht Hn). lia.
+      + destruct (Rn t Ht Hn). lia.
+    - cbn [ch_name app_ref]. intros y Hy. apply in_app_or in Hy. destruct Hy as [Hy|Hy]; [eapply D; eauto|].
+      apply in_map_iff in Hy. destruct Hy as (c0 & Ec & Hc0). destruct c0 as [v|t|y0]; cbn in Ec; try discriminate.
+      + destruct (t <? 0)%Z; discriminate.
+      + inversion Ec; subst. eapply W4; eauto.
+    - rewrite mkflat_snoc. apply (proj2 (represents_mk named _ _)). cbn [ch_name ch_cons app_ref].
+      apply rep_app; [apply (proj1 (represents_mk named ch _)); exact E | exact Hrep' | |].
+      + intros t Ht Hn (c0 & Hc0 & Ht0). specialize (C t Ht Hn). destruct (Rc c0 t Hc0 Ht0 Hn). lia.
+      + intros t Ht Hn (c0 & Hc0 & Ht0). destruct (Rn t Ht Hn) as [H1 _]. rewrite B1 in Hc0. apply in_app_or in Hc0. destruct Hc0 as [Hc0|Hc0].
+        * specialize (Htag0 c0 t Hc0 Ht0 Hn). lia.
+        * destruct (B3 c0 t Hc0 Ht0 Hn). lia.
+  Qed.
+End Rule.
